@@ -595,6 +595,51 @@ func undecidedSkipRule(p *Prog, r *Report, rule string) {
 				okAll = false
 			}
 		}
+		// the converse (needed by a node that was reset from a frame): an undecided round AT OR BELOW the reset point —
+		// such rounds are never processed by DecideFame again — does not end the search
+		okConv, convAt := true, ""
+		// the edge on which "*roundLowerBound >= i" holds (below the undecided test): every path from it returns to the
+		// loop head — it does not leave the loop
+		nLB := 0
+		for b := range lp.body {
+			if len(b.Succs) != 2 || !wd.Block().Dominates(b) {
+				continue
+			}
+			for _, sx := range b.Succs {
+				l, ok := edgeLit(b, sx)
+				if !ok || !qLB(l) {
+					continue
+				}
+				if g, _ := p.allPathsEdge(b, sx, []Pred{qUndecided}, all(1)); !g {
+					continue // not under the undecided test
+				}
+				nLB++
+				forwardFromEdge(b, sx, func(cur *ssa.BasicBlock) bool {
+					if cur == lp.head {
+						return false
+					}
+					if !lp.body[cur] {
+						isErr := false
+						for _, pr := range cur.Preds {
+							if lp.body[pr] && errorExit(pr, cur) {
+								isErr = true
+							}
+						}
+						if !isErr {
+							okConv = false
+							convAt = p.ipos(cur.Instrs[0])
+						}
+						return false
+					}
+					return true
+				})
+			}
+		}
+		if nLB == 0 {
+			okConv, convAt = false, "no such edge found"
+		}
+		r.Check(okConv, rule, "DecideRoundReceived:undecided-round-below-the-reset-point-is-stepped-over", p.ipos(wd), fnName(fn), "an undecided round at or below the reset point does not end the search",
+			"the search for a round-received can stop (at "+convAt+") at an undecided round i with *roundLowerBound >= i: after a fast-forward those rounds stay undecided for ever, so the events above the frame would never be received on the reset node while the other nodes commit them")
 		r.Check(okAll, rule, "DecideRoundReceived:undecided-round-stops-the-search", p.ipos(wd), fnName(fn), "an undecided round ends the search unless it lies at or below the reset point",
 			"the loop over rounds can continue past round i with undecided fame without *roundLowerBound >= i (i the round examined): an event can be received in a later round than its descendants, or before the fame that decides it")
 	}
